@@ -9,7 +9,7 @@ import itertools
 
 import numpy as np
 
-from ..target import sdof
+from ..target import eqsig, sdof
 from ..result import Res
 from ..compare import words
 
@@ -50,7 +50,7 @@ def build(tier, seed):
                 % (L, list(SCAL), list(DTS), list(XIS), list(RATIOS)),
         'bounds': {'alphabet': [-1, 0, 1], 'max_len': L, 'dt': DTS, 'xi': XIS, 'T_over_dt': RATIOS, 'refinement': [2, 8], 'shifts': [1, 3]},
         'required_classes': ['pair-independent', 'split-changes-tail', 'shift-nonzero-response', 'perm-nonidentity',
-                             'partition-multiblock', 'refine', 'leading-zero-period'],
+                             'partition-multiblock', 'refine', 'leading-zero-period', 'consecutive-calls'],
         'assumptions': ['relations are checked between executions of the implementation itself (no reference values needed)',
                         'refinement only where T/(dt/r) <= 2e4 (the domain of C01)'],
     }
@@ -236,6 +236,46 @@ def run_record(case, r):
                 except Exception as e:
                     r.fail('refinement', sub, 'malformed: %s' % e)
 
+            # ---- refinement through the object: AccSignal refines the record itself (min_dt_ratio) before integrating; its spectra
+            # must be those of the array function on the linearly refined record (so they never fall below the raw-sample values)
+            if oks:
+                for mdr in (2, 8):
+                    sub = dict(base, object_min_dt_ratio=mdr)
+
+                    def obj():
+                        s_ = eqsig.AccSignal(a, dt, response_times=np.array(periods))
+                        s_.gen_response_spectrum(xi=xi, min_dt_ratio=mdr)
+                        return s_.s_d, s_.s_v, s_.s_a
+                    ok, got = r.call('refinement.object', sub, obj)
+                    if not ok:
+                        continue
+                    r.transitions += 1
+                    r.n_cmp += 1
+                    try:
+                        got = [np.asarray(x, dtype=float) for x in got]
+                        match = False
+                        for f in (mdr, mdr + 1):      # T_min/20 < dt/mdr on this menu, so the required factor is mdr (or mdr+1 by float rounding)
+                            a_f = np.interp(np.arange((n - 1) * f + 1) / f, np.arange(n), a)
+                            for tail in (a_f, np.concatenate([a_f, np.full(f - 1, a[-1])])):
+                                sp = sdof.pseudo_response_spectra(tail, dt / f, periods, xi)
+                                if all(np.asarray(x).shape == y.shape and np.all(np.abs(np.asarray(x, dtype=float) - y) <= 1e-9 * np.abs(y) + 1e-300)
+                                       for x, y in zip(sp, got)):
+                                    match = True
+                                    break
+                            if match:
+                                break
+                        if not match:
+                            r.fail('refinement.object', sub, 'spectra of the object differ from the array function on the record refined by %d' % mdr,
+                                   observed=got[0])
+                        r.n_cmp += 1
+                        w_ = 2 * np.pi / periods
+                        tol = 1e-9 + 10 * EPS / (w_ * dt / (mdr + 1)) ** 3
+                        sd1 = np.asarray(spa[0], dtype=float)
+                        if not np.all(got[0] >= sd1 - tol * np.maximum(sd1, got[0]) - 1e-300):
+                            r.fail('refinement.object', sub, 'S_d of the object is below the value from the raw samples', observed=got[0], expected=sd1)
+                    except Exception as e:
+                        r.fail('refinement.object', sub, 'malformed: %s' % e)
+
 
 def run_batching(case, r):
     dt = case['dt']
@@ -295,6 +335,30 @@ def run_batching(case, r):
                                                observed=g, expected=want)
                         except Exception as e:
                             r.fail('batching.order', sub, 'malformed: %s' % e)
+                # consecutive calls whose period lists share length and end entries but differ inside (a result must depend on
+                # its own period only, not on what the previous call happened to compute)
+                if size >= 3 and all(T in single and len(single[T]) == 9 for T in menu):
+                    for other in menu:
+                        if other in subset:
+                            continue
+                        first_list = list(subset)
+                        second_list = [subset[0]] + [other] + list(subset[2:]) if size >= 3 else None
+                        for l1, l2 in ((first_list, second_list), (first_list, [subset[0]] + list(subset[1:-1])[::-1] + [subset[-1]])):
+                            if l2 is None or l1 == l2:
+                                continue
+                            sub = {'dt': dt, 'xi': xi, 'a': a.tolist(), 'first_call': [p / dt for p in l1], 'second_call': [p / dt for p in l2]}
+                            r.states += 1
+                            r.transitions += 1
+                            ok1, _ = r.call('batching.consecutive', sub, sdof.response_series, a, dt, np.array(l1), xi)
+                            ok2, out2 = r.call('batching.consecutive', sub, sdof.response_series, a, dt, np.array(l2), xi)
+                            if ok1 and ok2:
+                                r.cls('consecutive-calls')
+                                try:
+                                    for j in range(3):
+                                        rel_close(r, 'batching.consecutive', dict(sub, out=j), np.asarray(out2[j], dtype=float),
+                                                  np.array([single[T][j] for T in l2]), 1e-12, 'second of two consecutive calls vs single-period calls')
+                                except Exception as e:
+                                    r.fail('batching.consecutive', sub, 'malformed: %s' % e)
                 # set partitions of the subset into batches (order inside a batch ascending)
                 for part in partitions(list(subset)):
                     if len(part) > 1:
